@@ -14,7 +14,7 @@ from __future__ import annotations
 import ast
 import re
 
-from checks.solver_common import run_model, classify, run_params
+from checks.solver_common import run_model, classify, run_params, lock_flag_fields
 from sa.algebra import Rat
 from sa.solver_ir import SolverIR, atoms_deep, self_field_writes, value_atoms, flatten
 from sa.spec.variables import VARIABLE_ATTR, VARIABLE_KINDS
@@ -225,6 +225,83 @@ def check_reset(model, rep, R='C12.reset'):
     rep.require(R, 9)
 
 
+def check_pre_run_state(model, rep, R='C12.reset'):
+    """reset replaces every element attribute by its FIRST RECORDED sample, i.e. by the value it had at the END of
+    instant 0.  Whatever instant 0 of a fresh start reads of an attribute before writing it is pre-run state that the
+    rerun cannot see again (it sees the end-of-instant-0 value instead) - except the documented initial conditions
+    (position and speed, re-applied by the user).  For the boolean mode decider (the lock check) only the reads that
+    can move the flag away from its fresh value count."""
+    import ast
+    from sa.solver_ir import SolverIR as _IR
+    rm = run_model(model)
+    mod = rm.member.module
+    flags = lock_flag_fields(rm)
+    flag = sorted(flags)[0].split('.', 1)[1] if flags else None
+    decisive = {}
+    if flag:
+        for name, mem in model.classes['Solver'].members.items():
+            if name in ('__init__', 'run'):
+                continue
+            if any(isinstance(n, ast.Attribute) and isinstance(n.ctx, ast.Store) and model.mangle('Solver', n.attr) == flag
+                   for n in ast.walk(mem.node)):
+                ir = _IR(model, opaque_methods=())
+                ir.install_subscript()
+                outs = ir.sx.run(mem.node, mem.module, 'Solver')
+                attrs = set()
+                for o in outs:
+                    st = [e for e in o.state.effects if e[0] == 'store' and e[1] == 'self' and e[2] == flag]
+                    if st and isinstance(st[-1][3], Bv) and st[-1][3].b is True:        # away from the fresh value False
+                        for g in o.state.guards:
+                            for k in g.key if isinstance(g.key, tuple) else ():
+                                for a in re.findall(r'E\[[^\]]*\]\.(\w+)', str(k)):
+                                    attrs.add(a)
+                decisive[name] = attrs
+    exposed = {}
+    n_paths = 0
+    for rp in rm.paths:
+        if not rp.fresh:
+            continue
+        n_paths += 1
+        ti = next((j for j, ev in enumerate(rp.pre) if ev.kind == 'time'), None)
+        if ti is None:
+            continue
+        written = []
+        for ev in rp.pre[ti + 1:]:
+            reads = list(ev.reads)
+            if any(c[1] == 'update_time_variables' for c in ev.calls):
+                reads = []      # the recorder copies; that it only records what was computed is C17.computed
+            dec = [c[1] for c in ev.calls if c[0] == 'self' and c[1] in decisive]
+            if dec:
+                reads = [r for r in reads if r.attr in decisive[dec[0]]]
+            for r in reads:
+                if r.attr in ('angular_position', 'angular_speed') or r.attr not in RESTORED:
+                    continue
+                if any(w.attr == r.attr and not w.who.disjoint(r.who) for w in written):
+                    continue
+                if any(w.attr == r.attr for w in ev.writes):
+                    continue
+                exposed.setdefault(r.attr, (ev.text, ev.lineno))
+            written += list(ev.writes)
+            for c in ev.calls:      # element methods compute_<attr>() write that attribute of their owner
+                if c[1].startswith('compute_') and c[1][len('compute_'):] in RESTORED:
+                    from sa.instant import Access, ANY
+                    written.append(Access(c[1][len('compute_'):], ANY))
+    for attr in sorted(RESTORED - {'angular_position', 'angular_speed'}):
+        if attr in exposed:
+            text, ln = exposed[attr]
+            rep.violation(R, f'Solver.run[fresh start]:pre-run[{attr}]',
+                          f'instant 0 of a fresh start reads {attr} before writing it (`{text[:60]}`), but reset() restores {attr} from the '
+                          f'first recorded sample, i.e. its value at the END of instant 0: run, reset, rerun starts from another {attr} '
+                          f'than the first run did', f'{mod}:{ln}')
+        else:
+            rep.holds(R, f'Solver.run[fresh start]:pre-run[{attr}]', 'written before read at instant 0 (or never read)', f'{mod}:{rm.member.node.lineno}')
+    rep.decide(n_paths > 0, R, 'Solver.run[fresh start]:paths', 'no fresh-start path found')
+
+
+RESTORED = {'angular_position', 'angular_speed', 'angular_acceleration', 'torque', 'driving_torque', 'load_torque', 'pwm',
+            'electric_current', 'tangential_force', 'bending_stress', 'contact_stress'}
+
+
 def check_stateless(model, rep, R='C12.reset'):
     """Powertrain.reset restores the elements and the clock only.  Everything else a schedule touches - control
     rules, the controller, sensors, timers, stop conditions - is reused as is by the rerun, so the methods the solver
@@ -270,6 +347,10 @@ def check(model, rep):
         rep.cannot('C12.cont', 'Solver.run', str(e))
     check_reset(model, rep)
     check_stateless(model, rep)
+    try:
+        check_pre_run_state(model, rep)
+    except CannotDecide as e:
+        rep.cannot('C12.reset', 'Solver.run[fresh start]:pre-run', str(e))
     rep.require('C12.state', 1)
     rep.require('C12.cont', 3)
     rep.require('C12.unit', 1)
